@@ -177,6 +177,7 @@ BlockwiseAgrees ==
   \A b \in AllBlocks :
     LET L == IF Par(b) = 0 THEN {} ELSE LedgerAt(Par(b))
     IN /\ ApplyBlock(L, b, Height(b)) = ApplyBlockSeq(L, b, Height(b))
+       /\ LedgerAt(b) = LedgerAtRec(b) /\ Height(b) = HeightRec(b) /\ ChainTo(b) = ChainToRec(b)
        /\ (TxValidBlock(b) <=> TxValidBlockFrom(b, L))
 
 \* the stable set, with the in-progress delta reverted, is the ledger as of the last stable block
